@@ -99,6 +99,11 @@ fn main() {
         checks::c17::worker(seed, a, b, &out_path.unwrap_or_default());
         std::process::exit(0);
     }
+    if prop == "extreme-worker" {
+        util::quiet_panics();
+        checks::extreme::worker(seed, &out_path.unwrap_or_else(|| "C07".into()));
+        std::process::exit(0);
+    }
     if prop == "C19-worker" {
         util::quiet_panics();
         let (a, b) = shard.unwrap_or((0, 0));
@@ -247,6 +252,7 @@ fn memcheck_lane(prop: &str, seed: u64, k: u64, merged: &mut Outcome) {
         .arg("--out")
         .arg(&outp)
         .env("CSVERIF_NO_MEMCHECK", "1")
+        .env("CSVERIF_UNDER_VALGRIND", "1")
         .stdout(std::process::Stdio::null())
         .stderr(std::process::Stdio::null())
         .spawn();
